@@ -19,7 +19,7 @@ import (
 )
 
 func init() {
-	for _, n := range []string{"auth", "codec", "sortlim", "coalesce", "crash", "robust", "plan"} {
+	for _, n := range []string{"auth", "codec", "sortlim", "coalesce", "crash", "robust", "plan", "report"} {
 		ownsReplay[n] = true
 	}
 	engines["seq"] = seq.Engine{}
